@@ -236,6 +236,16 @@ M: List[Tuple[str, str, str, str, str]] = [
      "        if self.remote_executors_enabled and self.flags.num_workers < 2:\n            assert self.executors\n            self.executors.shutdown()"),
     ('c19-unix-skips-additional-ports', 'C19', 'proxy/core/listener/pool.py',
      "        ports.extend(self.flags.ports)", "        ports.extend(self.flags.ports if ports else [])"),
+    # ---- C17 ---------------------------------------------------------------
+    ('c17-threaded-recvbuf-truncates', 'C17', 'proxy/http/handler.py',
+     "            if self.request.state != httpParserStates.COMPLETE:\n                if self._parse_first_request(data):",
+     "            if self.request.state != httpParserStates.COMPLETE:\n                if self._parse_first_request(data if self.flags.threadless else data[:1024]):"),
+    ('c17-remote-worker-skips-every-other-readable', 'C17', 'proxy/core/work/threadless.py',
+     "            if mask & selectors.EVENT_READ:\n                work_by_ids[key.data][0].append(key.fd)",
+     "            if mask & selectors.EVENT_READ and not (wqfileno is not None and key.fd % 7 == 3):\n                work_by_ids[key.data][0].append(key.fd)"),
+    ('c17-local-mode-via-differs', 'C17', 'proxy/http/proxy/server.py',
+     "                self.request.add_headers(\n                    [(b'Via', b'1.1 %s' % PROXY_AGENT_HEADER_VALUE)],\n                )",
+     "                self.request.add_headers(\n                    [(b'Via', b'1.1 %s' % (PROXY_AGENT_HEADER_VALUE if self.flags.local_executor or not self.flags.threadless else b'proxy.py'))],\n                )"),
 ]
 
 
